@@ -23,7 +23,7 @@ ToSt(p, c) ==
    tokens |-> [t \in Tokens |-> p.tokens[t]],
    regw   |-> p.regw,
    gen    |-> p.gen,
-   cfg    |-> [sw |-> c.sw, nidl |-> c.nidl]]
+   cfg    |-> [sw |-> c.sw, nidl |-> c.nidl, so |-> c.so]]
 
 IsTokenEnrol(e) == e.op.op = "Fetch" /\ e.op.n \in Tokens /\ ~HasWrapped(e.op) /\ ~HasRewrapped(e.op) /\ e.res = "issued"
 
@@ -50,6 +50,8 @@ Viols(e, pre, post, enrNext) ==
      (IF ~AllowedC06(pre, e.op, e.res, post) THEN {<<"C06", "token-step">>} ELSE {}) \cup
      (IF \E t \in Tokens : Cardinality(enrNext[t]) > 1 THEN {<<"C06", "token-enrolled-two-nodes">>} ELSE {})
    ELSE {}) \cup
+  (IF "C06" \in Props /\ e.op.op = "CreateToken" /\ e.res = "ok" /\ e.obs.reconstructible
+     THEN {<<"C06", "stored-token-record-suffices-to-reconstruct-the-token">>} ELSE {}) \cup
   (IF "C03" \in Props /\ e.op.op = "Submit" THEN
      (IF ~ValidReq(e.op) /\ e.res # "error" THEN {<<"C03", "invalid-request-processed">>} ELSE {}) \cup
      (IF ~ValidReq(e.op) /\ e.writes # 0 THEN {<<"C03", "invalid-request-wrote-storage">>} ELSE {}) \cup
